@@ -6,7 +6,11 @@
   the closure to the one moment the closure expression is evaluated, and passes the caller's arguments
   positionally.  That is invisible iff  (1) the arguments are exactly the parameters, in order;  (2) F denotes
   the same function whenever it is evaluated, without effects: a declared function (instantiated when generic),
-  or a method of a generated iterator variable, which is assigned once;  (3) F has the closure's type.
+  or a method of a generated iterator variable, which is assigned once;  (3) F has the closure's type;
+  (4) the closure is not the function of a deferred call: `defer func(){ return F() }()` runs F one call below
+  the deferred function, where `recover()` returns nil (Go spec, "Handling panics": recover must be called
+  directly by the deferred function), whereas `defer F()` makes F the deferred function itself.  The flag
+  `deferGuard` says whether the optimiser has condition (4) (the pinned tree had not: finding D23).
 -/
 set_option autoImplicit false
 
@@ -29,10 +33,16 @@ deriving DecidableEq, Repr
 inductive Args | same | permuted | duplicated | nonIdent | fewer
 deriving DecidableEq, Repr
 
+/-- where the function literal stands: anywhere a value can (assigned, passed, called in place), or as the
+    function of a deferred call -/
+inductive Pos | value | deferred
+deriving DecidableEq, Repr
+
 structure Closure where
   callee : Callee
   args : Args
   sameType : Bool
+  pos : Pos := .value
 deriving DecidableEq, Repr
 
 /-- the callee expression can stand alone as a function value -/
@@ -50,8 +60,11 @@ def stable : Callee → Bool
   | .methodOfIterVar => true
   | _ => false
 
-/-- the optimiser's decision -/
-def etaOK (c : Closure) : Bool := decide (c.args = .same) && stable c.callee && c.sameType
+/-- the optimiser's decision (`deferGuard = false`: the decision of the pinned tree, finding D23) -/
+def etaOKq (deferGuard : Bool) (c : Closure) : Bool :=
+  decide (c.args = .same) && stable c.callee && c.sameType && (!deferGuard || decide (c.pos = .value))
+
+def etaOK (c : Closure) : Bool := etaOKq true c
 
 /-! ### rationale: what a call of the closure / of the reduced value observes -/
 
@@ -74,40 +87,48 @@ def evalCallee : Callee → World → Option (Nat × Nat)
   | .conversion, _ => none
   | .builtin, _ => none
 
-/-- (function called, how the caller's arguments reach it, effects when the value is created, effects per call) -/
-abbrev Obs := Option (Nat × Args × Nat × Nat)
+/-- (function called, how the caller's arguments reach it, effects when the value is created, effects per call,
+    calls between the deferred function and F - `recover()` inside F stops a panic iff that is 0; 0 as well
+    where the literal is not deferred and the language gives the depth no meaning) -/
+abbrev Obs := Option (Nat × Args × Nat × Nat × Nat)
+
+def belowDeferred : Pos → Nat
+  | .value => 0
+  | .deferred => 1
 
 /-- the closure, created in world w1 and called in world w2: F is evaluated at the call -/
 def obsClosure (c : Closure) (_w1 w2 : World) : Obs :=
   match evalCallee c.callee w2 with
-  | some (f, e) => some (f, c.args, 0, e)
-  | none => some (0, c.args, 0, 0)        -- conversion / builtin: a fixed operation, applied at the call
+  | some (f, e) => some (f, c.args, 0, e, belowDeferred c.pos)
+  | none => some (0, c.args, 0, 0, belowDeferred c.pos)   -- conversion / builtin: a fixed operation, applied at the call
 
-/-- the reduced value F: evaluated once at creation, arguments passed positionally; `none` = does not compile -/
+/-- the reduced value F: evaluated once at creation, arguments passed positionally, F itself is what is called
+    (or deferred); `none` = does not compile -/
 def obsReduced (c : Closure) (w1 _w2 : World) : Obs :=
   if !c.sameType then none else
   match evalCallee c.callee w1 with
-  | some (f, e) => some (f, .same, e, 0)
+  | some (f, e) => some (f, .same, e, 0, 0)
   | none => none
 
 /-- **soundness of the side conditions**: whenever the optimiser reduces, nothing can tell the difference -
     for every state at creation and every state at the call -/
 theorem etaOK_sound (c : Closure) (h : etaOK c = true) (w1 w2 : World) : obsReduced c w1 w2 = obsClosure c w1 w2 := by
-  obtain ⟨callee, args, sameType⟩ := c
-  simp only [etaOK, Bool.and_eq_true, decide_eq_true_eq] at h
-  obtain ⟨⟨ha, hs⟩, ht⟩ := h
+  obtain ⟨callee, args, sameType, pos⟩ := c
+  simp only [etaOK, etaOKq, Bool.and_eq_true, decide_eq_true_eq, Bool.not_true, Bool.false_or] at h
+  obtain ⟨⟨⟨ha, hs⟩, ht⟩, hp⟩ := h
   subst ha
   subst ht
+  subst hp
   cases callee with
-  | declared g i => simp only [stable] at hs; simp [obsReduced, obsClosure, evalCallee, hs]
-  | pkgFunc g i => simp only [stable] at hs; simp [obsReduced, obsClosure, evalCallee, hs]
+  | declared g i => simp only [stable] at hs; simp [obsReduced, obsClosure, evalCallee, belowDeferred, hs]
+  | pkgFunc g i => simp only [stable] at hs; simp [obsReduced, obsClosure, evalCallee, belowDeferred, hs]
   | methodOfIterVar => rfl
   | _ => cases hs
 
 /-- **necessity**: for every callee the decision refuses there are states in which the reduced value is
     observably different from the closure (or does not compile) -/
 theorem stable_necessary (callee : Callee) (h : stable callee = false) :
-    ∃ w1 w2, obsReduced ⟨callee, .same, true⟩ w1 w2 ≠ obsClosure ⟨callee, .same, true⟩ w1 w2 := by
+    ∃ w1 w2, obsReduced ⟨callee, .same, true, .value⟩ w1 w2 ≠ obsClosure ⟨callee, .same, true, .value⟩ w1 w2 := by
   refine ⟨⟨1⟩, ⟨2⟩, ?_⟩
   cases callee with
   | declared g i => simp only [stable] at h; simp [obsReduced, obsClosure, evalCallee, h]
@@ -116,11 +137,29 @@ theorem stable_necessary (callee : Callee) (h : stable callee = false) :
   | _ => simp [obsReduced, obsClosure, evalCallee]
 
 theorem args_necessary (a : Args) (h : a ≠ .same) (w : World) :
-    obsReduced ⟨.declared false false, a, true⟩ w w ≠ obsClosure ⟨.declared false false, a, true⟩ w w := by
+    obsReduced ⟨.declared false false, a, true, .value⟩ w w ≠ obsClosure ⟨.declared false false, a, true, .value⟩ w w := by
   cases a <;> simp_all [obsReduced, obsClosure, evalCallee]
 
 theorem type_necessary (w : World) :
-    obsReduced ⟨.declared false false, .same, false⟩ w w ≠ obsClosure ⟨.declared false false, .same, false⟩ w w := by
+    obsReduced ⟨.declared false false, .same, false, .value⟩ w w ≠ obsClosure ⟨.declared false false, .same, false, .value⟩ w w := by
   simp [obsReduced, obsClosure, evalCallee]
+
+/-- condition (4) is necessary: reducing the function of a deferred call moves F up to the deferred function
+    itself, in every state -/
+theorem position_necessary (callee : Callee) (w1 w2 : World) :
+    obsReduced ⟨callee, .same, true, .deferred⟩ w1 w2 ≠ obsClosure ⟨callee, .same, true, .deferred⟩ w1 w2 := by
+  cases callee <;> simp [obsReduced, obsClosure, evalCallee, belowDeferred] <;> split <;> simp
+
+/-- **D23** (kernel-checked): the decision without condition (4) reduces `defer func() int { return f() }()`
+    to `defer f()`, which is observably different -/
+theorem D23_pinned_decision_unsound :
+    etaOKq false ⟨.declared false false, .same, true, .deferred⟩ = true ∧
+    ∀ w1 w2, obsReduced ⟨.declared false false, .same, true, .deferred⟩ w1 w2
+              ≠ obsClosure ⟨.declared false false, .same, true, .deferred⟩ w1 w2 :=
+  ⟨by decide, position_necessary _⟩
+
+/-- outside deferred position the two decisions coincide -/
+theorem etaOKq_value (g : Bool) (c : Closure) (h : c.pos = .value) : etaOKq g c = etaOK c := by
+  simp [etaOK, etaOKq, h]
 
 end GoCo.EtaD
